@@ -75,6 +75,13 @@ def run_jobs(module, fn_name, jobs, procs=None, deadline=None):
     return out
 
 
+def stable_hash(x):
+    """process-independent hash for sub-sampling job lists (Python's hash() of strings is salted per process);
+    VERIF_SEED shifts which part of the space the quick tier samples"""
+    import zlib
+    return zlib.crc32((repr(x) + '#%d' % seed()).encode())
+
+
 # ------------------------------------------------------------------ report / evidence
 # seed testing against a scratch worktree (VERIF_REPO set) must not overwrite the evidence of /repo itself
 EVIDENCE_DIR = os.path.join(VERIF, 'evidence') if driver.REPO == '/repo' else os.path.join(driver.CACHE, 'evidence-alt')
